@@ -306,6 +306,10 @@ TEMPLATES = {
         "def fself({S}v10: Trig, v11: object, *, v31: object = eff(1, 41), v32: object = (1, 2)):\n    return (v31, v32, " + _site(r, "v31", "v11") + ", recurse(v32, 1, v32=v32))"),
     "positional_default": lambda r: dict(m_src=
         "def fself({S}v10: Trig, v11: object, v12: object = eff(1, [7])):\n    return (v12, recurse(v11, v11), recurse(v12, 1), call_next(1, v12))"),
+    "lambda_in_defaults": lambda r: dict(m_src=
+        "def fself({S}v10: Trig, v11: object, v12: object = (lambda a: eff(1, a + 1)), *, v31: object = (lambda: 41)):\n    return (v12(2), v31(), " + _site(r, "v31()", "v11") + ", recurse(v12(1), 1))"),
+    "comprehension_in_defaults": lambda r: dict(m_src=
+        "def fself({S}v10: Trig, v11: object, v12: object = [a * 2 for a in (1, 2)], *, v31: object = {a for a in (3,)}):\n    return (v12, sorted(v31), " + _site(r, "v12", "v11") + ")"),
     "loops": lambda r: dict(m_src=
         "def fself({S}v10: Trig, v11: object):\n    acc = []\n    for a in v13:\n        acc.append(" + _site(r, "a", "v11") +
         ")\n    i = 0\n    while i < 2:\n        i += 1\n        acc += [recurse(i, i)]\n    return acc"),
@@ -418,7 +422,7 @@ def run(ctx):
     finally:
         shutil.rmtree(work, ignore_errors=True)
     return {"evaluations": stats["evaluations"], "distinct_nontrivial": len(stats["distinct"]),
-            "rule": "translation validation: random straight-line method bodies over the modelled grammar (every expression context; awkward placements -- *, **, positional-by-keyword, repeated keyword, bare symbols, symbol-named binders -- with small probability), 4 parameter shapes (function / method, type[...] positions, positional-only, keyword-only), distinct non-trivial = distinct bodies containing a recurse / call_next call; behaviour: random bodies of the executable sub-grammar registered in a real function / class next to 10 leaf methods, distinct by (body, argument, method?); templates: 25 hand-written contexts outside the grammar with randomised call sites",
+            "rule": "translation validation: random straight-line method bodies over the modelled grammar (every expression context; awkward placements -- *, **, positional-by-keyword, repeated keyword, bare symbols, symbol-named binders -- with small probability), 4 parameter shapes (function / method, type[...] positions, positional-only, keyword-only), distinct non-trivial = distinct bodies containing a recurse / call_next call; behaviour: random bodies of the executable sub-grammar registered in a real function / class next to 10 leaf methods, distinct by (body, argument, method?); templates: 27 hand-written contexts outside the grammar with randomised call sites",
             "samples": stats["samples"], "programs": stats["tv_programs"], "disagreements_checked": stats["tv_programs"],
             "tv_rewritten_ast_equal_to_model": stats["tv_ast_equal"], "tv_usage_errors_agreeing": stats["tv_usage_error"],
             "tv_invalid_originals_agreeing": stats["tv_invalid_original"], "tv_valid_and_in_domain": stats["tv_in_domain"], "tv_kf11_hits": stats["tv_kf11"],
